@@ -66,6 +66,7 @@ def check(run: Run) -> None:
     _severity(run, res)
     _enum_shape(run, cm)
     _type_table(run, cm)
+    _sibling_kind_tables(run)
     _calendar_gates(run, cm)
     _regex_member(run, cm)
     _splitter_quotes(run, cm)
@@ -941,6 +942,34 @@ def _call_truth(t: ast.AST, val: bool) -> tuple[ast.Call, bool] | None:
     if isinstance(t, ast.Call) and isinstance(t.func, ast.Name) and t.func.id == "bool" and len(t.args) == 1:
         t = t.args[0]
     return (t, val) if isinstance(t, ast.Call) else None
+
+
+def _sibling_kind_tables(run: Run, rule: str = "R08.9") -> None:
+    """every kind -> Python type table of the validation code agrees with the documented kinds (sibling agreement)"""
+    n = 0
+    for mn in ("core.constraints", "core.validator", "core.repair", "core.schema_extractor"):
+        try:
+            m = run.project.mod(mn)
+        except AnalysisError:
+            continue
+        seen: set[int] = set()
+        for d in [x for x in ast.walk(m.tree) if isinstance(x, ast.Dict)]:
+            if id(d) in seen:
+                continue
+            seen.add(id(d))
+            rows = _dict_rows(d)
+            if rows is None or len(set(rows) & set(_KIND_TYPES)) < 2:
+                continue
+            if not all(v <= {"str", "int", "float", "bool", "list", "dict", "tuple"} for v in rows.values()):
+                continue  # not a table of Python types
+            n += 1
+            bad = {k: v for k, v in rows.items() if k in _KIND_TYPES and v != _KIND_TYPES[k]}
+            fn = m.enclosing_function(d) or "<module>"
+            run.instance(rule, m.loc(d), f"{mn}:{fn}: kind -> type table {{{', '.join(f'{k}: {sorted(v)}' for k, v in sorted(rows.items()))}}}", ok=not bad)
+            for k, v in sorted(bad.items()):
+                run.violation(rule, m, fn, f"kind table row {k} = {sorted(v)}", f"a kind -> type table of {mn} ({fn}) says {k} is {sorted(v)}, the documented value kind (and the table TYPE itself uses) is {sorted(_KIND_TYPES[k])}: two parts of the validator disagree on what a {k} is, so a value one accepts the other rejects")
+    if n == 0:
+        raise AnalysisError("no kind -> type table found in the validation modules")
 
 
 def _text_of_value(fi: FuncInfo, e: ast.AST, pvalue: str) -> bool:
